@@ -103,14 +103,19 @@ func (ps *ProcessSet) StartAll(ctx context.Context) error {
 	go ps.run(ctx)
 
 	for _, process := range ps.executes {
+		// The watcher has to be subscribed (and reading) before the process
+		// is started: a process that finishes quickly would otherwise emit its
+		// cease-flow trace before the subscription exists, the watcher would
+		// wait for it forever and the set would never report completion.
+		traces := process.Tracer().Subscribe()
+		ps.wg.Add(1)
+		go ps.tracerProcess(ctx, process, traces, &ps.wg)
+
+		verifhook.Point("processset.startall")
 		err := process.StartAll(ctx)
 		if err != nil {
 			return fmt.Errorf("start process %s: %w", process.Id().String(), err)
 		}
-
-		verifhook.Point("processset.startall")
-		ps.wg.Add(1)
-		go ps.tracerProcess(ctx, process, &ps.wg)
 	}
 
 	return nil
@@ -158,13 +163,16 @@ func (ps *ProcessSet) run(ctx context.Context) {
 							continue
 						}
 
+						// subscribe the watcher before starting, see StartAll
+						traces := process.Tracer().Subscribe()
+						ps.wg.Add(1)
+						go ps.tracerProcess(ctx, process, traces, &ps.wg)
+
 						err = process.StartWith(ctx, startFlowNode)
 						if err != nil {
 							ps.tracer.Send(ErrorTrace{Error: err})
 							continue
 						}
-						ps.wg.Add(1)
-						go ps.tracerProcess(ctx, process, &ps.wg)
 					}
 					cancel, found := ps.triggerCatch(string(sourceRef.TargetRefField))
 					if found {
@@ -181,10 +189,9 @@ func (ps *ProcessSet) run(ctx context.Context) {
 	}
 }
 
-func (ps *ProcessSet) tracerProcess(ctx context.Context, process *Process, wg *sync.WaitGroup) {
+func (ps *ProcessSet) tracerProcess(ctx context.Context, process *Process, traces chan tracing.ITrace, wg *sync.WaitGroup) {
 	defer wg.Done()
 
-	traces := process.Tracer().Subscribe()
 	defer process.tracer.Unsubscribe(traces)
 
 LOOP:
